@@ -164,41 +164,70 @@ Proof.
   destruct G as [l (Hl & Hn & Hi & _)]. rewrite <- Hl. apply NoDup_incl_length; assumption.
 Qed.
 
-Definition lat_step (g : digraph) (lat sep : list node) : list node :=
-  dedup (flat_map (fun u => if memn u lat then parents g u else [u]) sep).
+Lemma In_remove1 a x l : In a (remove1 x l) <-> In a l /\ a <> x.
+Proof. unfold remove1. rewrite filter_In, negb_true_iff, Nat.eqb_neq. tauto. Qed.
 
-Lemma In_lat_step g lat sep u :
-  In u (lat_step g lat sep) <->
-  (In u sep /\ ~ In u lat) \/ (exists l, In l sep /\ In l lat /\ In (u, l) (edges g)).
+Lemma iter_order_incl order s u : In u (iter_order order s) -> In u s.
 Proof.
-  unfold lat_step. rewrite dedup_In, in_flat_map. split.
-  - intros [l [Hl Hu]]. destruct (memn l lat) eqn:E.
-    + apply memn_In in E. apply In_parents in Hu. right. exists l. tauto.
-    + apply memn_false in E. destruct Hu as [Hu|[]]. subst. left. tauto.
-  - intros [[H1 H2]|[l (H1 & H2 & H3)]].
-    + exists u. split; [exact H1|]. apply memn_false in H2. rewrite H2. left. reflexivity.
-    + exists l. split; [exact H1|]. apply memn_In in H2. rewrite H2. apply In_parents. exact H3.
+  unfold iter_order. rewrite in_app_iff, !filter_In, memn_In. tauto.
 Qed.
 
-Lemma replace_latents_unfold fuel g lat sep :
-  replace_latents fuel g lat sep =
+Lemma iter_order_complete order s u : In u s -> In u (iter_order order s).
+Proof.
+  intros Hu. unfold iter_order. rewrite in_app_iff, !filter_In, dedup_In, memn_In.
+  destruct (memn u order) eqn:E; [apply memn_In in E; tauto|right; tauto].
+Qed.
+
+(* members after one pass: non-latent old members, or parents of latent old members (whatever the
+   iteration order) *)
+Lemma lat_step_members g lat ord sep v :
+  In v (lat_step g lat ord sep) ->
+  (In v sep /\ ~ In v lat) \/ (exists l, In l sep /\ In l lat /\ In (v, l) (edges g)).
+Proof.
+  unfold lat_step.
+  set (P := fun v => (In v sep /\ ~ In v lat) \/ (exists l, In l sep /\ In l lat /\ In (v, l) (edges g))).
+  assert (G : forall todo copy, incl todo sep ->
+            (forall v, In v copy -> P v \/ (In v lat /\ In v todo)) ->
+            forall v, In v (fold_left (fun copy u => if memn u lat then dedup (remove1 u copy ++ parents g u) else copy)
+                                      todo copy) -> P v).
+  { induction todo as [|u todo IH]; intros copy Hi Hinv w Hw.
+    - simpl in Hw. destruct (Hinv w Hw) as [H|[_ []]]. exact H.
+    - simpl in Hw. revert Hw. apply IH.
+      + intros z Hz. apply Hi. right. exact Hz.
+      + intros z Hz. destruct (memn u lat) eqn:E.
+        * apply memn_In in E. rewrite dedup_In, in_app_iff, In_remove1, In_parents in Hz.
+          destruct Hz as [[Hz Hne]|Hz].
+          -- destruct (Hinv z Hz) as [H|[H1 [H2|H2]]]; [left; exact H|congruence|right; tauto].
+          -- left. right. exists u. split; [apply Hi; left; reflexivity|tauto].
+        * apply memn_false in E. destruct (Hinv z Hz) as [H|[H1 [H2|H2]]]; [left; exact H| |right; tauto].
+          subst. contradiction. }
+  apply G.
+  - intros z Hz. eapply iter_order_incl. exact Hz.
+  - intros z Hz. destruct (memn z lat) eqn:E.
+    + apply memn_In in E. right. split; [exact E|apply iter_order_complete; exact Hz].
+    + apply memn_false in E. left. left. tauto.
+Qed.
+
+Lemma replace_latents_unfold fuel g lat lorder i sep :
+  replace_latents fuel g lat lorder i sep =
   match fuel with
   | 0 => sep
-  | S f => if existsb (fun u => memn u lat) sep then replace_latents f g lat (lat_step g lat sep) else sep
+  | S f => if existsb (fun u => memn u lat) sep
+           then replace_latents f g lat lorder (S i) (lat_step g lat (lorder i) sep) else sep
   end.
 Proof. destruct fuel; reflexivity. Qed.
 
-Lemma replace_latents_no_latent g lat : wf_graph g -> acyclic g ->
-  forall fuel k sep,
+Lemma replace_latents_no_latent g lat lorder : wf_graph g -> acyclic g ->
+  forall fuel i k sep,
     (forall u, In u sep -> In u lat -> exists w, dpathn g k u w) ->
     length (nodes g) < k + fuel ->
-    forall u, In u (replace_latents fuel g lat sep) -> ~ In u lat.
+    forall u, In u (replace_latents fuel g lat lorder i sep) -> ~ In u lat.
 Proof.
-  intros Hw Ha. induction fuel as [|f IH]; intros k sep Hinv Hk u Hu Hl; rewrite replace_latents_unfold in Hu.
+  intros Hw Ha. induction fuel as [|f IH]; intros i k sep Hinv Hk u Hu Hl; rewrite replace_latents_unfold in Hu.
   - destruct (Hinv u Hu Hl) as [w Hp]. pose proof (dpathn_bound g k u w Hw Ha Hp). lia.
   - destruct (existsb (fun u => memn u lat) sep) eqn:E.
-    + revert Hl. apply (IH (S k) (lat_step g lat sep)); [|lia|exact Hu].
-      intros v Hv Hvl. apply In_lat_step in Hv. destruct Hv as [[_ Hv]|[l (H1 & H2 & H3)]]; [contradiction|].
+    + revert Hl. apply (IH (S i) (S k) (lat_step g lat (lorder i) sep)); [|lia|exact Hu].
+      intros v Hv Hvl. apply lat_step_members in Hv. destruct Hv as [[_ Hv]|[l (H1 & H2 & H3)]]; [contradiction|].
       destruct (Hinv l H1 H2) as [w Hp]. exists w. econstructor; eauto.
     + assert (Ht : existsb (fun u => memn u lat) sep = true).
       { apply existsb_exists. exists u. split; [exact Hu|apply memn_In; exact Hl]. }
@@ -206,17 +235,17 @@ Proof.
 Qed.
 
 (* members stay inside any ancestor-closed set that contains the initial separator *)
-Lemma replace_latents_incl g lat keep : up_closed g keep ->
-  forall fuel sep, incl sep keep -> incl (replace_latents fuel g lat sep) keep.
+Lemma replace_latents_incl g lat lorder keep : up_closed g keep ->
+  forall fuel i sep, incl sep keep -> incl (replace_latents fuel g lat lorder i sep) keep.
 Proof.
-  intros Hc. induction fuel as [|f IH]; intros sep Hi; rewrite replace_latents_unfold; [exact Hi|].
+  intros Hc. induction fuel as [|f IH]; intros i sep Hi; rewrite replace_latents_unfold; [exact Hi|].
   destruct (existsb (fun u => memn u lat) sep); [|exact Hi].
-  apply IH. intros u Hu. apply In_lat_step in Hu. destruct Hu as [[H _]|[l (H1 & _ & H3)]].
+  apply IH. intros u Hu. apply lat_step_members in Hu. destruct Hu as [[H _]|[l (H1 & _ & H3)]].
   - apply Hi. exact H.
   - eapply Hc; [exact H3|apply Hi; exact H1].
 Qed.
 
-Lemma replace_latents_nolat_id fuel g sep : replace_latents fuel g [] sep = sep.
+Lemma replace_latents_nolat_id fuel g lorder i sep : replace_latents fuel g [] lorder i sep = sep.
 Proof.
   rewrite replace_latents_unfold. destruct fuel; [reflexivity|].
   assert (E : existsb (fun u => memn u []) sep = false).
@@ -226,9 +255,6 @@ Proof.
 Qed.
 
 (* ------------------------------------------------------------------ greedy removal loop *)
-Lemma In_remove1 a x l : In a (remove1 x l) <-> In a l /\ a <> x.
-Proof. unfold remove1. rewrite filter_In, negb_true_iff, Nat.eqb_neq. tauto. Qed.
-
 Section Greedy.
 Variable conn : list node -> bool.
 Definition gstep (ms : list node) (u : node) : list node :=
@@ -263,28 +289,28 @@ Qed.
 End Greedy.
 
 (* ------------------------------------------------------------------ post-condition *)
-Definition sep_init (g : digraph) (lat : list node) (x y : node) : list node :=
-  remove1 x (remove1 y (replace_latents (S (length (nodes g))) g lat (dedup (parents g x ++ parents g y)))).
+Definition sep_init (g : digraph) (lat : list node) (lorder : nat -> list node) (x y : node) : list node :=
+  remove1 x (remove1 y (replace_latents (S (length (nodes g))) g lat lorder 0 (dedup (parents g x ++ parents g y)))).
 
-Lemma minimal_dseparator_unfold g lat x y order :
-  minimal_dseparator g lat x y order =
+Lemma minimal_dseparator_unfold g lat x y lorder order :
+  minimal_dseparator g lat x y lorder order =
   if adjacent g x y then None
   else
     let ag := ancestral_graph g [x; y] in
-    let sep := sep_init g lat x y in
+    let sep := sep_init g lat lorder x y in
     if is_dconnected ag x y sep then Some None
     else Some (Some (fold_left (gstep (is_dconnected ag x y))
-                       (filter (fun u => memn u sep) order ++ filter (fun u => negb (memn u order)) sep) sep)).
+                       (iter_order order sep) sep)).
 Proof. reflexivity. Qed.
 
-Lemma sep_init_props g lat x y : wf_graph g -> acyclic g ->
-  (forall u, In u (sep_init g lat x y) -> ~ In u lat) /\
-  incl (sep_init g lat x y) (anc_of g [x; y]) /\
-  ~ In x (sep_init g lat x y) /\ ~ In y (sep_init g lat x y).
+Lemma sep_init_props g lat lorder x y : wf_graph g -> acyclic g ->
+  (forall u, In u (sep_init g lat lorder x y) -> ~ In u lat) /\
+  incl (sep_init g lat lorder x y) (anc_of g [x; y]) /\
+  ~ In x (sep_init g lat lorder x y) /\ ~ In y (sep_init g lat lorder x y).
 Proof.
   intros Hw Ha. unfold sep_init. split; [|split; [|split]].
   - intros u Hu. apply In_remove1 in Hu. destruct Hu as [Hu _]. apply In_remove1 in Hu. destruct Hu as [Hu _].
-    revert Hu. apply (replace_latents_no_latent g lat Hw Ha _ 0); [|lia].
+    revert Hu. apply (replace_latents_no_latent g lat lorder Hw Ha _ 0 0); [|lia].
     intros v _ _. exists v. constructor.
   - intros u Hu. apply In_remove1 in Hu. destruct Hu as [Hu _]. apply In_remove1 in Hu. destruct Hu as [Hu _].
     revert u Hu. apply replace_latents_incl; [apply anc_of_up_closed; exact Hw|].
@@ -295,8 +321,8 @@ Proof.
   - intros H. apply In_remove1 in H. destruct H as [H _]. apply In_remove1 in H. tauto.
 Qed.
 
-Lemma minsep_post_b g lat x y order s : wf_graph g -> acyclic g -> In x (nodes g) ->
-  minimal_dseparator g lat x y order = Some (Some s) ->
+Lemma minsep_post_b g lat x y lorder order s : wf_graph g -> acyclic g -> In x (nodes g) ->
+  minimal_dseparator g lat x y lorder order = Some (Some s) ->
   let ag := ancestral_graph g [x; y] in
   (forall u, In u s -> ~ In u lat) /\
   incl s (anc_of g [x; y]) /\ ~ In x s /\ ~ In y s /\
@@ -305,11 +331,11 @@ Lemma minsep_post_b g lat x y order s : wf_graph g -> acyclic g -> In x (nodes g
 Proof.
   intros Hw Ha Hx H ag. rewrite minimal_dseparator_unfold in H.
   destruct (adjacent g x y); [discriminate|]. cbv zeta in H. fold ag in H.
-  destruct (is_dconnected ag x y (sep_init g lat x y)) eqn:Hsep; [discriminate|].
+  destruct (is_dconnected ag x y (sep_init g lat lorder x y)) eqn:Hsep; [discriminate|].
   inversion H as [Hs]. clear H.
-  set (sep := sep_init g lat x y) in *.
-  set (ord := filter (fun u => memn u sep) order ++ filter (fun u => negb (memn u order)) sep) in *.
-  destruct (sep_init_props g lat x y Hw Ha) as (P1 & P2 & P3 & P4). fold sep in P1, P2, P3, P4.
+  set (sep := sep_init g lat lorder x y) in *.
+  set (ord := iter_order order sep) in *.
+  destruct (sep_init_props g lat lorder x y Hw Ha) as (P1 & P2 & P3 & P4). fold sep in P1, P2, P3, P4.
   pose proof (fold_incl (is_dconnected ag x y) ord sep) as Hsub.
   split; [intros u Hu; apply P1; apply Hsub; exact Hu|].
   split; [intros u Hu; apply P2; apply Hsub; exact Hu|].
@@ -317,10 +343,7 @@ Proof.
   split; [intros Hu; apply P4; apply Hsub; exact Hu|].
   split; [apply fold_sep; exact Hsep|].
   intros u Hu.
-  assert (Hord : In u ord).
-  { unfold ord. apply in_or_app. destruct (memn u order) eqn:E.
-    - left. apply filter_In. split; [apply memn_In; exact E|]. apply memn_In. apply Hsub. exact Hu.
-    - right. apply filter_In. split; [apply Hsub; exact Hu|]. rewrite E. reflexivity. }
+  assert (Hord : In u ord) by (apply iter_order_complete; apply Hsub; exact Hu).
   destruct (fold_min (is_dconnected ag x y) ord sep u Hord Hu) as [ms' (H1 & H2 & H3)].
   assert (Hxa : In x (nodes ag)).
   { apply induced_nodes. split; [exact Hx|]. apply anc_of_self; simpl; auto. }
@@ -330,14 +353,14 @@ Proof.
 Qed.
 
 (* the same, in terms of the path-based definition and of the whole graph g *)
-Lemma minsep_post g lat x y order s : wf_graph g -> acyclic g -> In x (nodes g) ->
-  minimal_dseparator g lat x y order = Some (Some s) ->
+Lemma minsep_post g lat x y lorder order s : wf_graph g -> acyclic g -> In x (nodes g) ->
+  minimal_dseparator g lat x y lorder order = Some (Some s) ->
   (forall u, In u s -> ~ In u lat) /\ ~ In x s /\ ~ In y s /\
   ~ dconnected g s x y /\
   (forall u, In u s -> dconnected g (remove1 u s) x y).
 Proof.
   intros Hw Ha Hx H.
-  destruct (minsep_post_b g lat x y order s Hw Ha Hx H) as (P1 & P2 & P3 & P4 & P5 & P6).
+  destruct (minsep_post_b g lat x y lorder order s Hw Ha Hx H) as (P1 & P2 & P3 & P4 & P5 & P6).
   split; [exact P1|]. split; [exact P3|]. split; [exact P4|].
   assert (Hc := anc_of_up_closed g [x; y] Hw).
   assert (Hxk : In x (anc_of g [x; y])) by (apply anc_of_self; simpl; auto).
@@ -403,12 +426,12 @@ Qed.
 Lemma all_anc_sym g x y : all_anc g x y -> all_anc g y x.
 Proof. intros H p n He. destruct (H p n He); tauto. Qed.
 
-Lemma minsep_exists g x y order : wf_graph g -> acyclic g -> In x (nodes g) -> In y (nodes g) ->
+Lemma minsep_exists g x y lorder order : wf_graph g -> acyclic g -> In x (nodes g) -> In y (nodes g) ->
   x <> y -> adjacent g x y = false ->
-  exists s, minimal_dseparator g [] x y order = Some (Some s).
+  exists s, minimal_dseparator g [] x y lorder order = Some (Some s).
 Proof.
   intros Hw Ha Hx Hy Hne Hadj. rewrite minimal_dseparator_unfold, Hadj. cbv zeta.
-  set (ag := ancestral_graph g [x; y]). set (sep := sep_init g [] x y).
+  set (ag := ancestral_graph g [x; y]). set (sep := sep_init g [] lorder x y).
   assert (Hsep : is_dconnected ag x y sep = false); [|rewrite Hsep; eexists; reflexivity].
   unfold adjacent in Hadj. apply orb_false_iff in Hadj. destruct Hadj as [H1 H2].
   assert (Hxy : ~ In (x, y) (edges g)) by (intros H; apply has_edge_In in H; congruence).
@@ -468,11 +491,11 @@ Proof.
 Qed.
 
 (* ------------------------------------------------------------------ fuel of the latent loop *)
-Lemma replace_latents_fuel_stable g lat : forall f k sep,
-  (forall u, In u (replace_latents f g lat sep) -> ~ In u lat) ->
-  replace_latents (f + k) g lat sep = replace_latents f g lat sep.
+Lemma replace_latents_fuel_stable g lat lorder : forall f k i sep,
+  (forall u, In u (replace_latents f g lat lorder i sep) -> ~ In u lat) ->
+  replace_latents (f + k) g lat lorder i sep = replace_latents f g lat lorder i sep.
 Proof.
-  induction f as [|f IH]; intros k sep Hno.
+  induction f as [|f IH]; intros k i sep Hno.
   - simpl in *. rewrite replace_latents_unfold. destruct k; [reflexivity|].
     destruct (existsb (fun u => memn u lat) sep) eqn:E; [|reflexivity].
     apply existsb_exists in E. destruct E as [u [Hu Hl]]. apply memn_In in Hl.
@@ -482,11 +505,15 @@ Proof.
     destruct (existsb (fun u => memn u lat) sep); [|reflexivity]. apply IH. exact Hno.
 Qed.
 
-Lemma replace_latents_enough_fuel g lat sep k : wf_graph g -> acyclic g ->
-  replace_latents (S (length (nodes g)) + k) g lat sep = replace_latents (S (length (nodes g))) g lat sep.
+Lemma replace_latents_enough_fuel g lat lorder sep k : wf_graph g -> acyclic g ->
+  replace_latents (S (length (nodes g)) + k) g lat lorder 0 sep
+  = replace_latents (S (length (nodes g))) g lat lorder 0 sep /\
+  forall u, In u (replace_latents (S (length (nodes g))) g lat lorder 0 sep) -> ~ In u lat.
 Proof.
-  intros Hw Ha. apply replace_latents_fuel_stable.
-  apply (replace_latents_no_latent g lat Hw Ha _ 0); [|lia]. intros v _ _. exists v. constructor.
+  intros Hw Ha.
+  assert (H : forall u, In u (replace_latents (S (length (nodes g))) g lat lorder 0 sep) -> ~ In u lat).
+  { apply (replace_latents_no_latent g lat lorder Hw Ha _ 0 0); [|lia]. intros v _ _. exists v. constructor. }
+  split; [apply replace_latents_fuel_stable; exact H|exact H].
 Qed.
 
 (* ------------------------------------------------------------------ local Markov property *)
@@ -506,8 +533,8 @@ Proof.
   - exact Hnd.
 Qed.
 
-Lemma minsep_adjacent_iff g lat x y order :
-  minimal_dseparator g lat x y order = None <-> adjacent g x y = true.
+Lemma minsep_adjacent_iff g lat x y lorder order :
+  minimal_dseparator g lat x y lorder order = None <-> adjacent g x y = true.
 Proof.
   rewrite minimal_dseparator_unfold. destruct (adjacent g x y); cbv zeta.
   - tauto.
